@@ -27,12 +27,27 @@ OM2 = {"default": {}, "small": {"large_om2": 0.0}, "large": {"large_om2": float(
 SCRIBBLES = ("scale", "zero", "nan", "add")
 BADKINDS = ("nanT0", "infT0", "shortT1", "longT0", "nanV")
 AUX = ("omegalist1", "omegalist2", "tags2preene", "preene2betafree", "tracer", "str")
-COMPONENTS = ("gfcalc", "thermo", "kinetic", "vkinetic", "taylor", "yaml:crystal", "yaml:groupop",
-              "yaml:pairstate", "yaml:clustersite", "yaml:cluster", "yaml:vtk", "vtkdict")
+COMPONENTS = ("gfcalc", "thermo", "kinetic", "NNstar", "GFstarset", "vkinetic", "taylor", "yaml:crystal", "yaml:crystal-extra",
+              "yaml:crystal-simple", "yaml:groupop", "yaml:pairstate", "yaml:clustersite", "yaml:cluster", "yaml:vtk", "vtkdict")
 
 
 def tens_digest(out):
     return ",".join(fhex(x) for t in out for x in np.asarray(t, dtype=float).reshape(-1)[:4])
+
+
+_EXTRA = []
+
+
+def _extra_crystals():
+    if not _EXTRA:
+        _EXTRA.append(crystal.Crystal(np.eye(3), [[np.zeros(3), np.array([.5, .5, 0.]), np.array([.5, 0., .5]),
+                                                   np.array([0., .5, .5])], [np.array([.5, .5, .5])]],
+                                      ["U", "N"], spins=[[1, -1, -1, 1], [0]]))
+        _EXTRA.append(crystal.Crystal(np.eye(3), [[np.zeros(3)], [np.array([.5, .5, .5])],
+                                                  [np.array([.5, .5, 0.]), np.array([.5, 0., .5]), np.array([0., .5, .5])]],
+                                      ["La", "Ga", "O"]))
+        _EXTRA.append(crystal.Crystal(np.array([[1., 0.], [0., 1.3]]), [[np.zeros(2)], [np.array([.5, .5])]], ["A", "B"]))
+    return _EXTRA
 
 
 class Caller(object):
@@ -639,7 +654,7 @@ class Run(RunBase):
                     self.fail("component-gfcalc", "G({},{},{}) original {!r} reloaded {!r}".format(PS.i, PS.j, PS.dx, va, vb))
             if not np.allclose(g.Diffusivity(), g2.Diffusivity(), rtol=1e-12, atol=0):
                 self.fail("component-gfcalc", "Diffusivity differs after reload")
-        elif what in ("thermo", "kinetic"):
+        elif what in ("thermo", "kinetic", "NNstar", "GFstarset"):
             s = getattr(calc, what)
             s2 = self.roundtrip(s.addhdf5, lambda grp: stars.StarSet.loadhdf5(calc.crys, grp))
             if s.Nstates != s2.Nstates or s.Nstars != s2.Nstars or s.Nshells != s2.Nshells:
@@ -701,8 +716,26 @@ class Run(RunBase):
         def rt(x):
             return yaml.load(yaml.dump(x), Loader=yaml.Loader)
 
+        if what == "yaml:crystal-extra":
+            # crystals with features the calculator worlds lack: spins, several chemistries, 2-D with two species
+            extras = _extra_crystals()
+            crys = extras[rnd.randrange(len(extras))]
+            what = "yaml:crystal"
+        if what == "yaml:crystal-simple":
+            # the documented simplified route: simpleYAML() text -> Crystal.fromdict()
+            c2 = crystal.Crystal.fromdict(yaml.load(crys.simpleYAML(), Loader=yaml.Loader))
+            ok = np.allclose(crys.lattice, c2.lattice, rtol=0, atol=1e-12) and crys.chemistry == c2.chemistry and \
+                len(crys.basis) == len(c2.basis) and all(
+                    len(a) == len(b) and all(np.allclose(x, y, rtol=0, atol=1e-12) for x, y in zip(a, b))
+                    for a, b in zip(crys.basis, c2.basis)) and len(crys.G) == len(c2.G) and crys.N == c2.N
+            if not ok:
+                self.fail("yaml-crystal", "simpleYAML()/fromdict() round trip changes the crystal")
+            return
         if what == "yaml:crystal":
             c2 = rt(crys)
+            if (crys.spins is None) != (c2.spins is None) or (crys.spins is not None and
+                                                              [list(x) for x in crys.spins] != [list(x) for x in c2.spins]):
+                self.fail("yaml-crystal", "spins differ after YAML round trip")
             ok = np.allclose(crys.lattice, c2.lattice, rtol=0, atol=1e-14) and crys.chemistry == c2.chemistry and \
                 len(crys.basis) == len(c2.basis) and all(
                     len(a) == len(b) and all(np.allclose(x, y, rtol=0, atol=1e-14) for x, y in zip(a, b))
@@ -792,6 +825,8 @@ class Engine(object):
         if c in ("hcp", "b2disp", "tet2w") and self.tier != "thorough" and ranges != [1] and rng.random() < 0.6:
             ranges = [1]
         grids = rng.choice(([2], [2, 3], [2, 3])) if self.tier != "thorough" else rng.choice(([2], [2, 3], [3, 4], [2, 4]))
+        if self.tier == "thorough" and c in ("square", "tria", "honey", "rect2w", "rect4i", "triadisp") and rng.random() < 0.3:
+            ranges = rng.choice(([1, 3], [2, 3], [1, 2, 3]))     # deeper thermodynamic ranges where they are cheap
         w = {"crystal": c, "ranges": ranges, "N": rng.choice(ranges), "grids": grids, "NGF": rng.choice(grids),
              "birth": rng.choice(("ctor", "image", "image")), "pool_seed": rng.randrange(1 << 30),
              "buffers": rng.random() < 0.5}
